@@ -64,8 +64,17 @@ func c16Gen(r *Rng, tier string, idx int) (string, func() string) {
 	if idx == 0 {
 		return "F", func() string { return c16Facts().line }
 	}
+	// an S op may wait for the updater's delayed save (2 s) and, when that does not come, for the
+	// periodic one (thorough tier): the runner's per-case limit must cover the worst case
+	caseTimeout = 60 * time.Second
+	if tier == "thorough" {
+		caseTimeout = 240 * time.Second
+	}
 	switch k := idx % 10; {
 	case k < 3:
+		if idx%20 < 10 && k == 2 || r.Chance(12) {
+			return c16GenHWindow(r, tier, idx)
+		}
 		return c16GenH(r, tier, idx)
 	case k < 8:
 		return c16GenK(r, tier, idx)
@@ -160,6 +169,7 @@ type c16FactSet struct {
 	writeAt []int    // indices of write steps
 	nops    int
 	adds    []string // keys saveState inserts into the cache
+	nosave  []string // nosaveMessages
 }
 
 var c16FactsOnce sync.Once
@@ -463,6 +473,7 @@ func c16Extract(path string) c16FactSet {
 	out.line = strings.Join(strings.Fields(sb.String()), " ")
 	out.ok = true
 	out.adds = adds
+	out.nosave = nosave
 	return out
 }
 
@@ -536,10 +547,7 @@ func c16GenH(r *Rng, tier string, idx int) (string, func() string) {
 		}
 	}
 	// initial config file
-	type kv struct {
-		k string
-		v interface{}
-	}
+	type kv = c16KV
 	var cfg []kv
 	seen := map[string]bool{}
 	for i, n := 0, r.Pick(0, 0, 1, 2, 3); i < n; i++ {
@@ -573,14 +581,26 @@ func c16GenH(r *Rng, tier string, idx int) (string, func() string) {
 		default:
 			if waits > 0 {
 				waits--
-				// a save happens 2 s after a CHANGE of a persistent topic: make one, then wait for it
-				lbl := fmt.Sprintf("wait-%d-%d", idx, k)
-				ops = append(ops, c16Op{kind: "U", tag: "STATELABEL", val: lbl})
-				ops = append(ops, c16Op{kind: "S", val: lbl})
+				// a save happens 2 s after the last CHANGE of a persistent topic; half of the waits are
+				// preceded by a fresh change, the others take the window as the history left it
+				if r.Bool() {
+					ops = append(ops, c16Op{kind: "U", tag: "STATELABEL", val: fmt.Sprintf("wait-%d-%d", idx, k)})
+				}
+				ops = append(ops, c16Op{kind: "S", val: 7})
 			}
 		}
 	}
 	ops = append(ops, c16Op{kind: "A"})
+	return c16HCase(cfg, ops, idx)
+}
+
+type c16KV struct {
+	k string
+	v interface{}
+}
+
+// c16HCase renders the input part of an H line and returns the function that runs it on the real updater.
+func c16HCase(cfg []c16KV, ops []c16Op, idx int) (string, func() string) {
 	var sb strings.Builder
 	fmt.Fprintf(&sb, "H cfg %d", len(cfg))
 	for _, e := range cfg {
@@ -734,6 +754,7 @@ func c16RunHistory(ops []c16Op, mainf string) string {
 		return "HARNESS-ERROR barrier"
 	}
 	var sb strings.Builder
+	latest := map[string]string{} // lower-cased tag -> JSON text of the last update sent
 	emitLive := func(ws []wire) {
 		for _, w := range ws {
 			fmt.Fprintf(&sb, " L %s %s", w.tag, hexStr(w.body))
@@ -743,6 +764,9 @@ func c16RunHistory(ops []c16Op, mainf string) string {
 		switch o.kind {
 		case "U":
 			dastard.VerifC16SendUpdate(o.tag, o.val)
+			if o.tag != "SENDALL" && o.tag != "NEWDASTARD" {
+				latest[strings.ToLower(o.tag)] = c16JSON(o.val)
+			}
 		case "A":
 			live, ok := barrier()
 			if !ok {
@@ -770,8 +794,13 @@ func c16RunHistory(ops []c16Op, mainf string) string {
 				return "HARNESS-ERROR barrier"
 			}
 			emitLive(live)
-			// the preceding op changed STATELABEL to a unique value: wait until the file holds it
-			saved, ok := c16WaitSaved(mainf, o.val.(string), 6*time.Second)
+			// Wait for the save points.  On a correct updater the delayed save comes 2 s after the last
+			// change of a persistent topic (none, if nothing changed since the last save).  The wait ends
+			// as soon as the file holds the latest value of every topic sent so far that the source's
+			// no-save list does not exclude (a stopping rule only: the verdict is the Lean oracle's), or
+			// after the time limit (7 s: the delayed save is overdue; 63 s: the periodic one too) — then
+			// the file is reported as it is.
+			saved, ok := c16WaitQuiet(mainf, latest, time.Duration(o.val.(int))*time.Second)
 			if !ok {
 				sb.WriteString(" S NOSAVE")
 				continue
@@ -805,6 +834,165 @@ func c16WaitSaved(mainf, label string, max time.Duration) ([][2]string, bool) {
 		return c16SavedKeys(m), true
 	}
 	return nil, false
+}
+
+// c16WaitQuiet polls the config file until it holds every wanted (key, JSON) pair that the no-save
+// list read from the source does not exclude, or until `max` has passed; it returns the file's keys as
+// they are then.  false = the file could not be read or parsed at all.
+func c16WaitQuiet(mainf string, latest map[string]string, max time.Duration) ([][2]string, bool) {
+	facts := c16Facts()
+	want := map[string]string{}
+	if facts.ok {
+		skip := map[string]bool{}
+		for _, k := range facts.nosave {
+			skip[k] = true
+		}
+		for _, a := range facts.adds {
+			skip[strings.ToLower(a)] = true
+		}
+		for k, v := range latest {
+			if !skip[k] && v != "" {
+				want[k] = v
+			}
+		}
+	}
+	start := time.Now()
+	deadline := start.Add(max)
+	var last [][2]string
+	got := false
+	for {
+		b, err := os.ReadFile(mainf)
+		var m map[string]interface{}
+		if err == nil && yaml.Unmarshal(b, &m) == nil {
+			last, got = c16SavedKeys(m), true
+			have := map[string]string{}
+			for _, e := range last {
+				have[e[0]] = e[1]
+			}
+			all := facts.ok
+			for k, v := range want {
+				if have[k] != v {
+					all = false
+				}
+			}
+			if all || (!facts.ok && time.Since(start) > 2600*time.Millisecond) {
+				return last, true
+			}
+		}
+		if time.Now().After(deadline) {
+			return last, got
+		}
+		time.Sleep(25 * time.Millisecond)
+	}
+}
+
+// c16GenHWindow: histories aimed at the save-debounce window.  Several persistent topics get a first
+// value and are saved; then, inside ONE window (no wait in between), some change for good, some change
+// away and back to the value already saved, some flip twice, some are repeated unchanged, mixed with
+// no-save topics and SENDALLs in any interleaving; then the save points are awaited and the file read.
+func c16GenHWindow(r *Rng, tier string, idx int) (string, func() string) {
+	persistent := c16Tags[:15]
+	ntags := r.Range(2, 4)
+	var tags []string
+	used := map[string]bool{}
+	for len(tags) < ntags {
+		t := persistent[r.Intn(len(persistent))]
+		if r.Chance(15) {
+			t = c16PickS(r, "XTOPIC", "Y2", "___3")
+		}
+		if !used[t] {
+			used[t] = true
+			tags = append(tags, t)
+		}
+	}
+	val := func(ti, k int) interface{} { // distinct values per tag, of mixed kinds
+		switch (ti + k) % 3 {
+		case 0:
+			return fmt.Sprintf("%c%d", 'a'+ti, k)
+		case 1:
+			return 100*ti + k
+		default:
+			return []int{ti, k}
+		}
+	}
+	cur := make([]int, ntags) // index of the value each tag currently has (and, after a wait, the saved one)
+	var cfg []c16KV
+	if r.Chance(40) { // some of the first values are already in the file read at start-up
+		for ti, t := range tags {
+			if r.Bool() && !strings.HasPrefix(t, "___") {
+				cfg = append(cfg, c16KV{strings.ToLower(t), val(ti, 0)})
+			}
+		}
+		sort.Slice(cfg, func(i, j int) bool { return cfg[i].k < cfg[j].k })
+	}
+	var ops []c16Op
+	for ti, t := range tags {
+		ops = append(ops, c16Op{kind: "U", tag: t, val: val(ti, 0)})
+	}
+	c16Shuffle(r, ops)
+	limit := func() int {
+		if tier == "thorough" && r.Chance(12) {
+			return 63 // long enough for the periodic save as well
+		}
+		return 7
+	}
+	ops = append(ops, c16Op{kind: "S", val: limit()})
+	next := 1
+	for w, nw := 0, r.Pick(1, 1, 2); w < nw; w++ {
+		seqs := make([][]c16Op, 0, ntags+1)
+		var revert []c16Op
+		for ti, t := range tags {
+			u := func(k int) c16Op { return c16Op{kind: "U", tag: t, val: val(ti, k)} }
+			var q []c16Op
+			switch c := r.Intn(100); {
+			case c < 30: // changes for good
+				q = []c16Op{u(next)}
+				cur[ti] = next
+			case c < 65: // away and back to the saved value
+				q = []c16Op{u(next), u(cur[ti])}
+				if r.Chance(30) {
+					q = []c16Op{u(next), u(next + 1), u(cur[ti])}
+				}
+				if revert == nil && r.Bool() {
+					revert, q = q, nil
+				}
+			case c < 80: // two changes
+				q = []c16Op{u(next), u(next + 1)}
+				cur[ti] = next + 1
+			case c < 90: // repeated unchanged
+				q = []c16Op{u(cur[ti]), u(cur[ti])}
+			}
+			if q != nil {
+				seqs = append(seqs, q)
+			}
+		}
+		next += 2
+		if r.Chance(50) {
+			seqs = append(seqs, []c16Op{{kind: "U", tag: "ALIVE", val: w}, {kind: "U", tag: "NUMBERWRITTEN", val: []int{w}}})
+		}
+		if r.Chance(30) {
+			seqs = append(seqs, []c16Op{{kind: "A"}})
+		}
+		// random interleaving that keeps each topic's own order
+		for len(seqs) > 0 {
+			i := r.Intn(len(seqs))
+			ops = append(ops, seqs[i][0])
+			if seqs[i] = seqs[i][1:]; len(seqs[i]) == 0 {
+				seqs = append(seqs[:i], seqs[i+1:]...)
+			}
+		}
+		ops = append(ops, revert...) // (when chosen) the window ends with a return to a saved value
+		ops = append(ops, c16Op{kind: "S", val: limit()})
+	}
+	ops = append(ops, c16Op{kind: "A"})
+	return c16HCase(cfg, ops, idx)
+}
+
+func c16Shuffle(r *Rng, ops []c16Op) {
+	for i := len(ops) - 1; i > 0; i-- {
+		j := r.Intn(i + 1)
+		ops[i], ops[j] = ops[j], ops[i]
+	}
 }
 
 func c16SavedKeys(m map[string]interface{}) [][2]string {
